@@ -28,6 +28,7 @@ RULE = (
     "through every applicable entry point under a watchdog; a watchdog hit is confirmed with a deterministic "
     "line-event budget. Allowed outcomes: documented result / not-found value / ValueError. non-trivial = the input "
     "differs from a valid seed or is not empty"
+    '. Added: a seed behind 1000 prepended bytes, 13 more PE header fields, HTTP token strings, guard marker at offsets 6120-6149, and three differential oracles (bytes vs path agree; the intact seed evaluates the same first and last in a chunk; well-formed payloads yield a configuration; the ArtifactKit scanner is independent of the handle position). '
 )
 ASSUMPTIONS = [
     "a call that needs more than 3,000,000 line events inside dissect/cobaltstrike on inputs <= 24 KB is a hang",
